@@ -103,12 +103,12 @@ def runArb (fs : List String) : String × String :=
     | .bad => (s, outs ++ ["bad-op"], specs ++ ["bad-op"])
     | .op op =>
       let (s', cs, ps) := step id s op
-      (s', outs ++ [obs s' cs ps], specs ++ [Spec.render s'])
+      (s', outs ++ [obs s' cs ps], specs ++ [Spec.render s'.toObjs])
     | .gcRaw raw =>
       let a := admitAll forb okIp4 okIp6 raw
       let (s', cs, ps) := step id s (.gc a.out)
       (s', outs ++ [obs s' cs ps ++ s!"#L={joinWith "+" (a.out.map (·.name))}#E={b01 (!a.dropped.isEmpty)}"],
-        specs ++ [Spec.render s'])) (({ cfg := cfg } : State), [], [])
+        specs ++ [Spec.render s'.toObjs])) (({ toObjs := { cfg := cfg } } : State), [], [])
   (joinWith ";;" outs, joinWith ";;" specs)
 
 def run (kind : String) (fs : List String) : Option (String × String) :=
